@@ -23,8 +23,18 @@ TARGETS = ['PyTough.Props.C07', 'drv_c05']
 THEOREMS = ['Props.C07.' + t for t in ['nav_view_eq_fresh', 'index_in_range', 'stale_cells_witness', 'next_bounds', 'prev_bounds',
                                     'negative_index_normalised', 'index_out_of_range', 'set_time_nearest', 'set_step_nearest',
                                     'history_preserves_view']]
-LEVEL_TEXT = ''
-LEVEL_NOTE = ''
+LEVEL_TEXT = ('Proof: 10 Lean theorems about the navigation machine of the reader (first/last/next/prev, index/time/step setters, history), '
+              'for every reader satisfying two stated hypotheses: after any sequence of successful actions the view equals that of a reader '
+              'positioned directly at that index (nav_view_eq_fresh, with a counterexample showing the Covers hypothesis is needed); the index '
+              'stays in range; next/prev report whether they moved and stop at the ends; negative indices count from the end, out-of-range ones '
+              'are an IndexError that changes nothing; time/step setters select a nearest result (exact arithmetic). No sorry. Tied to /repo by '
+              'running the same action sequences on the real t2listing and on the executable whole-file Lean model of the reader '
+              '(index, moved flag, IndexError, view = fresh view) for every shipped listing, truncated copies and perturbed copies; the oracle '
+              'compares the real reader after every action with a freshly opened reader at that index.')
+LEVEL_NOTE = ('Trusted: Lean kernel (+propext, Classical.choice, Quot.sound); the hand-written whole-file model of t2listing (compared with the real reader '
+              'cell for cell on every run, C05); Covers and LoadSetsIndex are hypotheses of the theorems: Covers is evaluated on the model of every '
+              'shipped file by a sentinel test and reported in the evidence, not proved for the whole-file model; nearest-selection is proved over exact '
+              'numbers (Rat/Int), the code computes |t_i - t| in doubles.')
 TECHNIQUE = L.TECHNIQUE
 ASSUMPTIONS = list(L.ASSUMPTIONS)
 TRUSTED_EXTRA = list(L.TRUSTED_EXTRA)
@@ -334,6 +344,23 @@ def correspond(ctx, res, jobs, results):
         for b, fut in zip(buckets, futs):
             for i, o in zip(b, fut.result()):
                 outs[i] = o
+    # hypothesis Covers of nav_view_eq_fresh, evaluated on the model of every shipped file: re-reading any result
+    # overwrites every cell of every table (cells are set to a sentinel first)
+    hyp = res.hyp.setdefault('Covers: re-reading a result overwrites every cell of every table (whole-file model, sentinel test)', [0, 0])
+    origs = [(job, r) for (job, r) in owners if job['vspec'].get('kind', 'orig') == 'orig']
+    if origs:
+        lines = []
+        for job, r in origs:
+            od = '1' if str(r['path']).endswith('OUTPUT_DATA') else '0'
+            lines += ['open %s %s -' % (L.hexs(str(r['path'])), od), 'covers']
+        cov = core.run_driver('drv_c05', lines)
+        for k, (job, r) in enumerate(origs):
+            rep = cov[2 * k + 1].split(' ')
+            hyp[1] += 1
+            ok = rep[0] == 'ok' and len(rep) > 1 and all(x == '1' for x in rep[1].split(','))
+            hyp[0] += ok
+            if not ok:
+                res.count('covers-fails:' + job['rel'])
     for (job, r), (path, n, traces), o in zip(owners, reqs, outs):
         case0 = dict(file=job['rel'], variant=job['vspec'])
         if o is None:
